@@ -1645,3 +1645,33 @@ Proof.
   induction 1; [exact Sim_init | | assumption].
   destruct (an_step_sim _ _ _ _ _ _ _ IHreach H0 H1 H2) as [X|[X|[X _]]]; [contradiction | contradiction | assumption].
 Qed.
+
+(* ================= K. listing is exact in every reachable state ============================================== *)
+Lemma list_exact_lemma : forall h a, reach h a ->
+  (forall ty g r h' mr a' sr, tyok ty -> mstep h (OAnnlist ty g r) = (h', mr) -> step a (OAnnlist ty g r) = (a', sr) ->
+     Sim h' a' /\ accepts sr mr /\ sr <> RUnspec) /\
+  (forall ty g r h' mr a' sr, tyok ty -> mstep h (ONumann ty g r) = (h', mr) -> step a (ONumann ty g r) = (a', sr) ->
+     Sim h' a' /\ accepts sr mr /\ sr <> RUnspec) /\
+  (forall h' mr a' sr, mstep h OFileInfo = (h', mr) -> step a OFileInfo = (a', sr) ->
+     Sim h' a' /\ accepts sr mr /\ sr <> RUnspec) /\
+  (forall slot ty idx x0 h' mr a' sr, tyok ty -> mstep h (OSelect slot ty idx x0) = (h', mr) ->
+     step a (OSelect slot ty idx (ref_of mr)) = (a', sr) -> Sim h' a' /\ accepts sr mr /\ sr <> RUnspec).
+Proof.
+  intros h a Hr. pose proof (reach_Sim _ _ Hr) as HS. split; [|split; [|split]].
+  - intros ty g r h' mr a' sr Hty HM HSp.
+    assert (N : sr <> RUnspec).
+    { simpl in HSp. rewrite (proj2 (valid_type_iff ty) Hty) in HSp. simpl in HSp. destruct (_ || _); inversion HSp; discriminate. }
+    destruct (sim_annlist _ _ _ _ _ _ _ _ _ HS Hty HM HSp) as [X|[X Y]]; [contradiction | auto].
+  - intros ty g r h' mr a' sr Hty HM HSp.
+    assert (N : sr <> RUnspec).
+    { simpl in HSp. rewrite (proj2 (valid_type_iff ty) Hty) in HSp. simpl in HSp. destruct (_ || _); inversion HSp; discriminate. }
+    destruct (sim_numann _ _ _ _ _ _ _ _ _ HS Hty HM HSp) as [X|[X Y]]; [contradiction | auto].
+  - intros h' mr a' sr HM HSp.
+    assert (N : sr <> RUnspec) by (simpl in HSp; destruct (negb (sess a)); inversion HSp; discriminate).
+    destruct (sim_fileinfo _ _ _ _ _ _ HS HM HSp) as [X|[X Y]]; [contradiction | auto].
+  - intros slot ty idx x0 h' mr a' sr Hty HM HSp.
+    assert (N : sr <> RUnspec).
+    { simpl in HSp. destruct (negb (sess a)); [inversion HSp; discriminate|]. rewrite (proj2 (valid_type_iff ty) Hty) in HSp. simpl in HSp.
+      destruct (_ || _); [inversion HSp; discriminate|]. destruct (lookup _ _); inversion HSp; discriminate. }
+    destruct (sim_select _ _ _ _ _ _ _ _ _ _ HS Hty HM HSp) as [X|[X Y]]; [contradiction | auto].
+Qed.
